@@ -1016,7 +1016,10 @@ class Evaluator:
         def merge(outs):
             if len(outs) == 1:
                 o = outs[0]
-                return o.value, o.effects[base_e:], o.heap
+                # what the callee established before it returned here (the other way out raised) holds from now on
+                known = [App("eff:assume", (c,), e) for c in o.conds[base_c:] if not any(
+                    isinstance(x, App) and x.op == "eff:assume" and x.args[0] == c for x in o.effects[base_e:])]
+                return o.value, list(o.effects[base_e:]) + known, o.heap
             # find the first condition where outcomes diverge
             i = base_c
             while all(len(o.conds) > i for o in outs) and all(o.conds[i] == outs[0].conds[i] for o in outs):
